@@ -177,6 +177,20 @@ def splice_fn(rel, impl_sel, fn_name, opts, contract_lines):
         if body2 != body:
             dropped.append("%s::%s: debug_assert! statements" % (impl_sel, fn_name))
         body = body2
+    if "assign_ops" in opts.get("desugar", ""):
+        # `place += expr;` / `place -= expr;` on newtype fields -> the method call the operator stands for (Verus
+        # attaches fixed specs to the operator traits, so the impls are spliced as inherent fns); an integer literal
+        # on the right selects the `<usize>` impl.  Purely syntactic, robust against renamed locals.
+        def _ds(m):
+            place, op, rhs = m.group(1), m.group(2), m.group(3).strip()
+            meth = {"+=": "add_assign", "-=": "sub_assign"}[op]
+            if re.fullmatch(r"\d+(usize)?", rhs):
+                meth += "_usize"
+            return "%s.%s(%s);" % (place, meth, rhs)
+        body2 = re.sub(r"((?:self\.)[A-Za-z_][\w\.]*)\s*(\+=|-=)\s*([^;]+);", _ds, body)
+        if body2 != body:
+            dropped.append("%s::%s: `place += e;` / `place -= e;` desugared to `place.add_assign(e);` / `place.sub_assign(e);`" % (impl_sel, fn_name))
+        body = body2
     for pair in [p for p in opts.get("subst", "").split("@@") if p]:
         a, b = pair.split("=>", 1)
         if a not in body and a not in sig:
